@@ -1491,6 +1491,7 @@ type op =
 | OSubStatus of z * z * z * z
 | OPathAppend of path * z
 | OAliasAttr of z * path
+| OReplaceSeries of z * z list
 
 (** val is_empty_trace : heap -> loc -> z -> bool **)
 
@@ -1618,6 +1619,13 @@ let compile_op k h r = function
        else if Z.eqb (own_scalar h r (a n_strict)) k.k_false
             then add_attribute_acts x (SAlias p)
             else []
+| OReplaceSeries (name, vs) ->
+  let x = resolve_alias h r name in
+  if zmem x (scalars_path h r ((a n_index) :: []))
+  then if Nat.eqb (length vs) (arr_len h r ((v x) :: []))
+       then (AReplace (((v x) :: []), vs)) :: []
+       else []
+  else []
 
 type state = { sh : heap; sroots : loc list }
 
@@ -1769,12 +1777,38 @@ let linker_solve_ops t subs passes st it =
 type hevent =
 | HOps of nat * op list
 | HEv of event
+| HCopySeries of nat * nat * z * z
+| HAddVarFrom of nat * nat * z * z
+| HInitFrom of nat * iargs * nat * z * z
 
 (** val run_hevent : consts -> state -> hevent -> state **)
 
 let run_hevent k s = function
 | HOps (i, os) -> fold_left (fun s0 o -> run_fevent k s0 (FOp (i, o))) os s
 | HEv e0 -> run_event k s e0
+| HCopySeries (i, j, srcname, dstname) ->
+  (match nth_error s.sroots j with
+   | Some rj ->
+     run_fevent k s (FOp (i, (OReplaceSeries (dstname,
+       (scalars_path s.sh rj ((v srcname) :: []))))))
+   | None -> s)
+| HAddVarFrom (i, j, srcname, dstname) ->
+  (match nth_error s.sroots j with
+   | Some rj ->
+     run_fevent k s (FOp (i, (OAddVariable (dstname,
+       (arr_dtype s.sh rj ((v srcname) :: [])),
+       (scalars_path s.sh rj ((v srcname) :: []))))))
+   | None -> s)
+| HInitFrom (ci, a0, j, srcname, dstname) ->
+  (match nth_error s.sroots j with
+   | Some rj ->
+     run_event k s (EInit (ci, { ia_span = a0.ia_span; ia_n = a0.ia_n;
+       ia_strict = a0.ia_strict; ia_dtype = a0.ia_dtype; ia_adt = a0.ia_adt;
+       ia_default = a0.ia_default; ia_engine = a0.ia_engine; ia_initial =
+       ((dstname,
+       (scalars_path s.sh rj ((v srcname) :: []))) :: a0.ia_initial);
+       ia_linker = a0.ia_linker }))
+   | None -> s)
 
 (** val run_hevents : consts -> state -> hevent list -> state **)
 
